@@ -23,7 +23,9 @@ from mc.ref import beans
 
 from checks.c15 import match
 
-VALUES = [0, False, None, "", "é", 1.5, [1, (2,)], {"k": [0]}, {1, 2}, (1, "a")]
+from mc import gen
+
+VALUES = [0, False, None, "", "é", 1.5, [1, (2,)], {"k": [0]}, {1, 2}, (1, "a")] + gen.SUBTYPE_VALUES[:1] + gen.SUBTYPE_VALUES[2:7] + gen.SUBTYPE_VALUES[8:9]
 DEFAULTS = ["d0", 11, 2.5, "d3", True, "d5"]
 CONTEXTS = ["top", "list", "list2", "dict", "deep", "bean-list", "bean-dict"]
 PATHS = ["dump-load", "dumps-loads", "rpc-param-2", "rpc-param-1", "rpc-result-2", "rpc-result-1"]
@@ -144,7 +146,7 @@ def run_case(case):
         back = transport(value, path, cfg)
         o2 = extract(ctx, back)
     except Exception as ex:
-        slot = "slotted" if spec[0] != "dict" else "dict"
+        slot = "slotted" if spec[0].partition("@")[0] != "dict" else "dict"
         mangled = "mangled" if any("c" in l for l in spec[1]) else "plain"
         return out.bad("%s/raises-%s/%s-%s-%s" % (sig, type(ex).__name__, slot, mangled, "nested" if ctx != "top" else "top"),
                        "spec %r values %r in context %s via %s raised %r" % (spec, assignment, ctx, path, ex))
@@ -168,6 +170,10 @@ def shape_cases(tier):
         a = default_assignment(nfields(spec))
         yield (spec, a, "top", "dump-load", False)
         yield (spec, a, "list", "dumps-loads", False)
+    for spec in classgen.specs(1, storages=("dict@_", "slots@_", "slots-on-dict@_", "dict-on-slots@_", "slots@__")):
+        a = default_assignment(nfields(spec))
+        yield (spec, a, "top", "dump-load", False)
+        yield (spec, a, "list", "dumps-loads", True)
 
 
 REPR_SPECS = [
@@ -181,6 +187,10 @@ REPR_SPECS = [
     ("dict-on-slots", (("a", "c"), ("b",)), "none", "none"),
     ("dict", (("a",), (), ("b", "c")), "none", "none"),
     ("slots", (("a",), ("c",), ("c",)), "none", "none"),
+    # class names with leading underscores (name mangling drops them: _L0.__c0 is stored as _L0__c0)
+    ("slots@_", (("a", "c"),), "none", "none"),
+    ("dict@_", (("c",), ("a", "c")), "none", "none"),
+    ("slots@__", (("c",), ("b", "c")), "none", "none"),
 ]
 
 
@@ -317,8 +327,9 @@ META = {
     "technique": "bounded-exhaustive enumeration of generated class definitions (programs), field values, embedding contexts and transport paths "
     "against a structural equality oracle",
     "rule": "shapes: every class hierarchy with storage in {__dict__, __slots__, slots on dict base, dict on slots base}, depth 0-2 (thorough 0-3), "
-    "0-2 fields per level drawn from {public, protected, name-mangled}, through dump/load (top) and dumps/loads (in a list); values: 10 representative "
-    "hierarchies x each field over 10 values (all pairs for 2-field classes) x 7 contexts x 6 paths (dump/load, dumps/loads, RPC parameter and result under "
+    "0-2 fields per level drawn from {public, protected, name-mangled}, through dump/load (top) and dumps/loads (in a list), and the depth 0-1 hierarchies "
+    "again with class names that start with one or two underscores; values: 13 representative "
+    "hierarchies x each field over 17 values (primitives, containers, and values of subclass types: OrderedDict, Counter, dict/list/str/int subclasses, namedtuple) (all pairs for 2-field classes) x 7 contexts x 6 paths (dump/load, dumps/loads, RPC parameter and result under "
     "1.0 and 2.0) x module-qualified / locally registered; serialize: serialisation-method classes (list args, dict args, custom method name) x 8 "
     "attribute values x contexts x paths; singletons: 5 enum members and 7 Decimals x contexts x paths; histories: every sequence of 3 (thorough 4) round trips "
     "over 4 classes x module/local naming (all local classes share one bare name in different class tables); every case is non-trivial",
@@ -332,7 +343,7 @@ META = {
 
 
 def replay(case):
-    c = eval(case["case"], {"__builtins__": {}, "set": set, "frozenset": frozenset}, {})
+    c = eval(case["case"], dict(gen.SUBTYPE_ENV, __builtins__={}, set=set, frozenset=frozenset), {})
     if case["leg"] == "singletons":
         return check_singleton(c).viols
     if case["leg"] == "histories":
